@@ -22,6 +22,9 @@ TABLE['into_bytes'] = 's_into_bytes'
 TABLE['as_slice'] = ('s_as_slice', 'ref')
 TABLE['into_owned'] = 's_into_owned'
 TABLE['split_at'] = ('s_split_at', 'ref')
+TABLE['with_timezone'] = ('s_with_timezone', 'ref')
+for _m in ('offset_from_local_datetime', 'offset_from_utc_datetime', 'from_local_datetime', 'from_utc_datetime'):
+    TABLE[_m] = ('s_' + _m, 'ref')
 
 PRELUDE = r'''
 // ---- uninterpreted std string functions (what they compute is std's; assumed) -----------------------------------------------
@@ -155,9 +158,20 @@ pub uninterp spec fn d_abs(d: Duration) -> Duration;
 #[verifier::external_body] pub fn s_subsec_millis(d: Duration) -> (r: i32) ensures r == d_subsec_millis(d), -1000 < r < 1000 { unimplemented!() }
 #[verifier::external_body] pub fn s_abs(d: Duration) -> (r: Duration) ensures r == d_abs(d) { unimplemented!() }
 pub mod helpers_mod { }
-/// the named IANA zone or an error; the instant is the same, seen in that zone
-#[verifier::external_body] pub fn get_adjusted_datetime(this: DateTime<Utc>, timezone: String) -> (r: CelResult<DateTime<Tz>>)
-    ensures zone_of(timezone@) is Some ==> r == Ok::<DateTime<Tz>, CelError>(in_zone(this, zone_of(timezone@)->Some_0)), zone_of(timezone@) is None ==> r is Err { unimplemented!() }
+// ---- chrono-tz: the zone a name denotes, and the same instant seen in a zone ------------------------------------------------------
+#[verifier::external_body] pub struct TzParseError { _p: u8 }
+#[verifier::external_body] pub fn s_tz_from_str(name: &String) -> (r: Result<Tz, TzParseError>)
+    ensures (match zone_of(name@) { Some(z) => r is Ok && r->Ok_0 == z, None => r is Err }) { unimplemented!() }
+#[verifier::external_body] pub fn s_with_timezone(t: &DateTime<Utc>, z: &Tz) -> (r: DateTime<Tz>) ensures r == in_zone(*t, *z) { unimplemented!() }
+// other ways chrono offers to build a zoned time: NO contract (present so that a changed helper that reaches for them is decided
+// against the helper's postcondition instead of failing to type-check)
+#[verifier::external_body] pub struct TzOffset { _p: u8 }
+pub enum LocalResult<T> { None, Single(T), Ambiguous(T, T) }
+#[verifier::external_body] pub fn s_offset_from_local_datetime(z: &Tz, n: &NaiveDateTime) -> LocalResult<TzOffset> { unimplemented!() }
+#[verifier::external_body] pub fn s_offset_from_utc_datetime(z: &Tz, n: &NaiveDateTime) -> TzOffset { unimplemented!() }
+#[verifier::external_body] pub fn s_from_local_datetime(z: &Tz, n: &NaiveDateTime) -> LocalResult<DateTime<Tz>> { unimplemented!() }
+#[verifier::external_body] pub fn s_from_utc_datetime(z: &Tz, n: &NaiveDateTime) -> DateTime<Tz> { unimplemented!() }
+impl DateTime<Tz> { #[verifier::external_body] pub fn from_naive_utc_and_offset(n: NaiveDateTime, o: TzOffset) -> Self { unimplemented!() } }
 '''
 
 
@@ -229,6 +243,12 @@ def build():
         'size#0': sz('this', 'utf8_len(this@)'), 'size#1': sz('this', 'this@.len()'), 'size#2': sz('this', 'this@.len()'),
         'size#3': sz('arg', 'utf8_len(arg@)'), 'size#4': sz('arg', 'arg@.len()'), 'size#5': sz('arg', 'arg@.len()')})
     U.raw('}', 'end file module')
+    U.extract(TF + 'helpers.rs', 'fn get_adjusted_datetime', annot=A(
+        ret='r', ensures=[('the_same_instant_in_the_named_zone', 'zone_of(timezone@) is Some ==> r == Ok::<DateTime<Tz>, CelError>(in_zone(this, zone_of(timezone@)->Some_0))'),
+                          ('unknown_zone_fails', 'zone_of(timezone@) is None ==> r is Err')],
+        method_table=TABLE, props=('C16', 'C01'),
+        rewrites=[('Tz::from_str(&timezone)', 's_tz_from_str(&timezone)', 'R2m: chrono_tz::Tz::from_str -> trampoline over the uninterpreted zone table'),
+                  ('|_|', '|_e|', 'Verus does not accept the `_` pattern as a closure parameter')]))
     # ---- calendar accessors ------------------------------------------------------------------------------------------------
     def acc(file, name, field, base='', extra=None):
         a = accessor(field, base)
